@@ -1,5 +1,6 @@
 import Rsp.Model.Ttl
 import Rsp.Spec.Ttl
+import Rsp.Spec.Choose
 namespace Drive
 open Rsp
 
@@ -8,11 +9,34 @@ def splitArrow (ts : List String) : List String × List String :=
   let b := (ts.dropWhile (· ≠ "=>")).drop 1
   (a, b)
 
+def parseEntry (t : String) : Option Choose.Entry :=
+  if t = "x" then some none else
+  match t.splitOn ":" with
+  | [a, b] => do let a ← a.toNat?; let b ← b.toNat?; pure (some (a, b))
+  | _ => none
+
+def showLost (l : List Choose.Entry) : String :=
+  " ".intercalate (l.map fun e => match e with | none => "x" | some (_, lo) => toString lo)
+
+def parseLostInto (l : List Choose.Entry) (ts : List String) : Option (List Choose.Entry) :=
+  if l.length ≠ ts.length then none else
+  (l.zip ts).mapM fun (e, t) =>
+    match e with
+    | none => if t = "x" then some none else none
+    | some (st, _) => t.toNat?.map fun lo => some (st, lo)
+
 def model (op : String) (args : List String) : String :=
   match op, args with
   | "decttl", [h] =>
     match ofHex h with
     | some v => let r := Ttl.decttl v; s!"{r.1} {toHex r.2}"
+    | none => "bad-op"
+  | "choose", ents =>
+    match ents.mapM parseEntry with
+    | some l =>
+      let r := Choose.choose l
+      let idx := match r.1 with | some i => toString i | none => "none"
+      (idx ++ " " ++ showLost r.2).trimAscii.toString
     | none => "bad-op"
   | _, _ => "bad-op"
 
@@ -22,6 +46,18 @@ def spec (op : String) (args impl : List String) : String :=
     match ofHex h, r.toNat?, ofHex h' with
     | some v, some r, some v' => if Spec.decttlOk v r v' then "ok" else "bad decttl-spec"
     | _, _, _ => "bad-op"
+  | "choose", ents, r :: lost' =>
+    match ents.mapM parseEntry with
+    | some l =>
+      let ri : Option (Option Nat) := if r = "none" then some none else r.toNat?.map some
+      match ri, parseLostInto l lost' with
+      | some ri, some l' =>
+        if !(l.all fun e => match e with | none => true | some (st, _) => st ≤ 4) then "bad-op"
+        else if !Spec.chooseOk l ri then "bad choose-selection"
+        else if !Spec.lostOk l l' then "bad choose-sideeffect"
+        else "ok"
+      | _, _ => "bad choose-output-shape"
+    | none => "bad-op"
   | _, _, _ => "bad-op"
 
 end Drive
